@@ -711,7 +711,7 @@ fn main() {
          other kind. A mutant that deserializes and re-serializes to the original bytes is discarded. non-trivial = distinct \
          (suite,type,key id) whose positive check passed",
     )
-    .min(args.n(110, 1100))
+    .min(args.n(5000, 100_000))
     .require("mut:id", "id byte mutants")
     .require("mut:nonce", "nonce byte mutants")
     .require("mut:ciphertext", "ciphertext byte mutants")
@@ -735,7 +735,7 @@ fn main() {
         finish_all(&args, vec![m]);
     }
 
-    let rounds = args.n(150, 2500);
+    let rounds = args.n(2500, 50_000);
     let cap = args.tier.pick(70.0, 800.0);
     let nt = TYPES.len() as u64;
     run_sharded(&args, &mut m, rounds * nt, cap, |m, k| {
